@@ -402,6 +402,7 @@ def check(prop, tier, base_seed, workers=None):
               % (r["violation"]["class"], r["violation"].get("step"),
                  r["ops_before"], r["ops_after"], r["shrink_evals"]))
         print(json.dumps(r["violation"].get("detail"), sort_keys=True)[:1500])
+        print("  (replay: bin/labsim replay %s   readable form: bin/labsim explain %s)" % (r["path"], r["path"]))
         print("VIOLATION property=%s replay=%s" % (prop, r["path"]))
     sys.stdout.flush()
     if reported:
